@@ -113,6 +113,37 @@ def run_case(spec, ctx):
         bad = C.audit_solution(f, sol.x, sol.objval,
                                tol=5e-6 if (s != 'eco' and cls in ('L', 'LI')) else 5e-5)
         if bad:
+            # attribute: does the same solver, called directly on the same arrays, return a
+            # vector with the same defect?  (observed: Gurobi's barrier leaves 1.6e-4 on an
+            # equality row of a conic program - the solver's accuracy, not the interface's)
+            r = raw(s)
+            if r[0] == 'optimal' and r[2] is not None and not isinstance(r[2], str):
+                rbad = C.audit_solution(f, np.asarray(r[2], float)[:f.linear.shape[1]], r[1],
+                                        tol=5e-6 if (s != 'eco' and cls in ('L', 'LI')) else 5e-5)
+                kinds_i = {b_[0] for b_ in bad}
+                kinds_r = {b_[0] for b_ in rbad}
+                worst_i = max(b_[1] for b_ in bad)
+                worst_r = max([b_[1] for b_ in rbad] or [0.0])
+                if kinds_i <= kinds_r and worst_r >= 0.2 * worst_i:
+                    ctx.count('solver_level_inaccuracy:' + s)
+                    continue
+            if s == 'grb' and 'Q' in cls:
+                # Gurobi's default barrier tolerance for QCPs stops early on some formulations
+                # (here: 1e-4 off the optimum and on an equality row); the same interface with a
+                # tight tolerance must then return a clean vector
+                try:
+                    from rsome import grb_solver
+                    import warnings as _w
+                    with _w.catch_warnings():
+                        _w.simplefilter('ignore')
+                        t2 = grb_solver.solve(f, display=False,
+                                              params={'BarQCPConvTol': 1e-10, 'TimeLimit': 30,
+                                                      'Threads': 1})
+                    if t2.x is not None and not C.audit_solution(f, t2.x, t2.objval, tol=5e-5):
+                        ctx.count('gurobi_qcp_tolerance_artifact')
+                        continue
+                except Exception:
+                    pass
             detail.append({'what': 'returned vector violates the compiled program',
                            'solver': s, 'audit': bad[:4]})
     # failure objects carry no numbers
